@@ -100,6 +100,9 @@ func (d *DynTypes) of(v ssa.Value, at *ssa.BasicBlock, depth int) TypeSet {
 	}
 	switch x := v.(type) {
 	case *ssa.MakeInterface:
+		if _, isTP := x.X.Type().(*types.TypeParam); isTP {
+			return TypeSet{Types: []types.Type{x.X.Type()}}
+		}
 		if _, isIface := x.X.Type().Underlying().(*types.Interface); isIface {
 			return d.of(x.X, at, depth+1)
 		}
@@ -138,6 +141,9 @@ func (d *DynTypes) of(v ssa.Value, at *ssa.BasicBlock, depth int) TypeSet {
 		return d.ofCall(x, 0, at, depth)
 	case *ssa.TypeAssert:
 		if !x.CommaOk {
+			if _, isTP := x.AssertedType.(*types.TypeParam); isTP {
+				return TypeSet{Types: []types.Type{x.AssertedType}}
+			}
 			if _, isIface := x.AssertedType.Underlying().(*types.Interface); !isIface {
 				return TypeSet{Types: []types.Type{x.AssertedType}}
 			}
@@ -274,6 +280,9 @@ func reflectTypeOfStatic(v ssa.Value) types.Type {
 		return nil
 	}
 	if mi, ok := c.Call.Args[0].(*ssa.MakeInterface); ok {
+		if _, isTP := mi.X.Type().(*types.TypeParam); isTP {
+			return mi.X.Type()
+		}
 		if _, isIface := mi.X.Type().Underlying().(*types.Interface); !isIface {
 			return mi.X.Type()
 		}
@@ -380,12 +389,16 @@ func (m *Module) provablyNonNil(v ssa.Value, b *ssa.BasicBlock, depth int) bool 
 			}
 		}
 	case *ssa.Phi:
+		all := len(x.Edges) > 0
 		for _, e := range x.Edges {
 			if !m.provablyNonNil(e, b, depth+1) {
-				return false
+				all = false
+				break
 			}
 		}
-		return len(x.Edges) > 0
+		if all {
+			return true
+		}
 	}
 	// a dominating `v != nil` fact on the very same SSA value (or same path)
 	if b != nil {
